@@ -380,8 +380,18 @@ func genPure(r *rng.R, n int) []string {
 			// one round's sources on several chains: every NFT is looked up on its own chain
 			k := 2 + r.N(2)
 			var ids, owners []string
+			// one round in three, the same collection address and token id on every chain (a collection deployed at one address on
+			// several chains): still a different NFT, with its own holder, per chain
+			same := r.P(1, 3)
+			sc, st := string(ctypes.NormalizeHexAddress(randHexDigits(r))), string(ctypes.NormalizeHexAddress(randHexDigits(r)))
 			for j := 0; j < k; j++ {
 				c := rng.Pick(r, []string{"1", "137", "eth-2"})
+				if same {
+					c = []string{"1", "137", "eth-2"}[j%3]
+					ids = append(ids, E(c+"/"+sc+"/"+st))
+					owners = append(owners, E(randAddr(r)))
+					continue
+				}
 				ids = append(ids, E(c+"/"+string(ctypes.NormalizeHexAddress(randHexDigits(r)))+"/"+string(ctypes.NormalizeHexAddress(randHexDigits(r)))))
 				owners = append(owners, E(randAddr(r)))
 			}
